@@ -9,6 +9,10 @@ grid, every scalar type:
                   (same success, same final slices r; the only escape is an explicit "did not settle within nB
                   passes" — `SolveExhausts`, which `solve` reports as an error for every object)
   C27_perm_iff    the symmetric form: if neither order runs out of max_iter, success and the resolved slices coincide
+  C27_perm_full   no escape clause: when the volume declares its shape and all constraint axes are 0-2, every
+                  productive pass assigns one of the 9·#objects slots, so max_iter > 9·#objects always suffices:
+                  solve sA nA = done r [] → solve sB nB = done r []
+  C27_terminates  … and under those conditions no run ends in the "did not converge" branch
   C27_confluence  the engine-level statement it rests on (any two group lists with the same atoms and the same
                   extension function)
 
@@ -22,6 +26,7 @@ Refutation witnesses for the pinned tree (`AsFound.solve`): three `asFound_*` ex
 the three defects one system and two orders with different success — and the same inputs under `solve`.
 -/
 import FdtdxLemmas.C26Sys
+import FdtdxLemmas.C26Term
 import FdtdxProps.C26
 
 namespace Fdtdx.C26
@@ -91,6 +96,31 @@ theorem C27_perm_iff {sA sB : Sys α} (p : PermSys sA sB) {nA nB : Nat}
       · rw [(success_iff _ r).2 h] at hsA; cases hsA
       · exact absurd h hA
 
+/-- **C27_perm_full** — with the bound on the number of passes: if the volume declares its shape and every
+constraint names axes 0-2, then ANY `max_iter > 9 · #objects` suffices for the permuted run, so permuting objects
+and constraints changes neither success nor any resolved slice. (The default `max_iter` is 1000.) -/
+theorem C27_perm_full {sA sB : Sys α} (p : PermSys sA sB) {nA nB : Nat} {r : St}
+    (hax : axesOK sA = true) (hvol : volSizedInit sA = true) (hn : 9 * sA.objs.length < nB)
+    (h : solve sA nA = .done r []) : solve sB nB = .done r [] := by
+  rcases C27_perm p (nB := nB) h with h1 | ⟨σ₀, hinitB, hex⟩
+  · exact h1
+  · exfalso
+    obtain ⟨hwf, _⟩ := solve_done h
+    have hwfB : wellFormed sB = true := by rw [p.wellFormed]; exact hwf
+    have hinitA : init sA = some σ₀ := by rw [← p.init (wellFormed_nodup hwf)]; exact hinitB
+    have hv : VolSized sB σ₀ := by
+      intro ax hax3
+      rw [p.volId (wellFormed_oneVol hwf)]
+      exact volSizedInit_spec hvol hinitA ax hax3
+    have hlen : sB.objs.length = sA.objs.length := p.objs.length_eq
+    exact not_exhausts (targetsIn_groups hwfB (by rw [p.axesOK]; exact hax)) hv (by rw [hlen]; exact hn) hex
+
+/-- C27_terminates: under the same conditions a run never ends in the "did not converge" branch. -/
+theorem C27_terminates {sys : Sys α} {n : Nat} (hwf : wellFormed sys = true) (hax : axesOK sys = true)
+    (hvol : volSizedInit sys = true) (hn : 9 * sys.objs.length < n) : ¬ SolveExhausts sys n := by
+  rintro ⟨σ₀, hinit, hex⟩
+  exact not_exhausts (targetsIn_groups hwf hax) (volSizedInit_spec hvol hinit) hn hex
+
 /-! ### non-vacuity -/
 section Examples
 open W
@@ -105,6 +135,10 @@ example : okAnd (solve (sysW [posAB, full 2 1, full 1 3]) 10)
     (fun σ => σ ⟨1, 0, .lo⟩ == some 3 && σ ⟨1, 0, .hi⟩ == some 5 && σ ⟨2, 0, .lo⟩ == some 1) = true := by decide +kernel
 example : okAnd (solve ⟨gInt, [cube 1, vol8, cube 2], [full 2 1, posAB, full 1 3]⟩ 10)
     (fun σ => σ ⟨1, 0, .lo⟩ == some 3 && σ ⟨1, 0, .hi⟩ == some 5 && σ ⟨2, 0, .lo⟩ == some 1) = true := by decide +kernel
+
+/-- the hypotheses of `C27_perm_full` hold for it (3 objects: any max_iter ≥ 28 will do) -/
+example : axesOK (sysW [posAB, full 2 1, full 1 3]) = true ∧ volSizedInit (sysW [posAB, full 2 1, full 1 3]) = true ∧
+    9 * (sysW [posAB, full 2 1, full 1 3]).objs.length < 28 := by decide +kernel
 
 /-- the escape clause is real: with `max_iter = 1` the run does not settle -/
 example : okAnd (solve (sysW [posAB, full 2 1, full 1 3]) 1) (fun _ => true) = false := by decide +kernel
